@@ -43,6 +43,7 @@ def tasks(tier):
             for first in SIGMA:
                 ts.append(("roc", thr_i, carrier, first, n))
     ts.append(("roc_small",))
+    ts.append(("roc_long",))
     ts.append(("roc_len",))
     m = TRACKN[tier]
     for a in range(len(POS)):
@@ -149,6 +150,14 @@ def run_task(task, acc):
                 if alpha.NAN in x:
                     for thr in THR[:4]:
                         yield dict(fn="roc", x=list(x), gaps=[60] * (len(x) - 1), carrier="dt64", thr=thr, data="ma")
+        run_cases(acc, gen(), check_case)
+    elif kind == "roc_long":
+        def gen():
+            x = alpha.debruijn(SIGMA, 4) * 3
+            gaps = [GAPS[(i * 7 + i // 5) % 4] for i in range(len(x) - 1)]
+            for carrier in ("dt64", "epoch"):
+                for thr in THR:
+                    yield dict(fn="roc", x=list(x), gaps=gaps, carrier=carrier, thr=thr)
         run_cases(acc, gen(), check_case)
     elif kind == "roc_len":
         def gen():
